@@ -543,6 +543,9 @@ class CompilerPassCheckConstValue(CompilerPass):
             self._visit_node(child)
 
     def handle_compare(self, node: nodes.Compare):
+        if len(node.ops) != 1:
+            # only the first comparison of 'a < b < c' would be compiled
+            raise CompilerError("Chained comparisons are not supported", node)
         left = node.left
         right = node.ops[0][1]
         self._visit_node(left)
